@@ -701,6 +701,7 @@ function safeEncodeErrors(errs, depth = 0) {
   }));
 }
 
+let LAST_PARSERS = {};
 async function handle(req) {
   switch (req.op) {
     case "ping":
@@ -711,9 +712,13 @@ async function handle(req) {
       if (req.code != null) {
         try {
           env.parsers = await loadModule(req);
+          LAST_PARSERS = env.parsers;
         } catch (e) {
           return { loadError: thrown(e) };
         }
+      } else if (req.reuse) {
+        // second round trip of the same case (C02: documents derived from the printed schema)
+        env.parsers = LAST_PARSERS;
       }
       const results = [];
       for (const q of req.queries || []) {
